@@ -4,5 +4,9 @@
 cd "$(dirname "$0")/harness" || exit 0
 export GOFLAGS=-mod=mod GOPROXY=off GOSUMDB=off GOTOOLCHAIN=local
 go build -tags verif ./engine ./gen 2>&1 | tail -5
-for p in props e3; do go test -c -vet=off -tags verif -o /dev/null ./$p 2>&1 | tail -5; done
+for p in props e3 life; do go test -c -vet=off -tags verif -o /dev/null ./$p 2>&1 | tail -5; done
+go test -c -vet=off -race -tags verif -o /dev/null ./life 2>&1 | tail -5
+T=$(mktemp -d) && go run ./gen -repo /repo -out "$T" -harness "$PWD" -what kq,win,ztest >/dev/null 2>&1 && \
+  for p in kq winprop ztestprop; do go test -c -vet=off -tags verif -overlay "$T/overlay.json" -o /dev/null ./$p 2>&1 | tail -5; done
+rm -rf "$T"
 exit 0
